@@ -20,7 +20,7 @@ def digest(obj):
 def jsonable(x, depth=0):
     """Best-effort conversion of observed values to JSON."""
     import numpy as np
-    if depth > 6:
+    if depth > 60:
         return repr(x)
     if x is None or isinstance(x, (bool, int, str)):
         return x
